@@ -16,6 +16,7 @@ type Prelude struct {
 	Order     []string
 	Axioms    []*PDef
 	UsesTypes []string
+	Opaque    map[string]bool
 }
 
 type PDef struct {
@@ -131,7 +132,7 @@ func readSort(toks []string, i int) (string, int) {
 }
 
 func LoadPrelude(dir string) (*Prelude, error) {
-	p := &Prelude{Defs: map[string]*PDef{}}
+	p := &Prelude{Defs: map[string]*PDef{}, Opaque: map[string]bool{}}
 	files, _ := filepath.Glob(filepath.Join(dir, "*.smt2"))
 	sort.Strings(files)
 	for _, f := range files {
@@ -142,6 +143,11 @@ func LoadPrelude(dir string) (*Prelude, error) {
 		for _, line := range strings.Split(string(data), "\n") {
 			if strings.HasPrefix(line, ";@ uses-type ") {
 				p.UsesTypes = append(p.UsesTypes, strings.Fields(strings.TrimPrefix(line, ";@ uses-type "))...)
+			}
+			if strings.HasPrefix(line, ";@ opaque ") {
+				for _, n := range strings.Fields(strings.TrimPrefix(line, ";@ opaque ")) {
+					p.Opaque[n] = true
+				}
 			}
 		}
 		for _, form := range splitTopLevel(string(data)) {
@@ -184,6 +190,28 @@ func LoadPrelude(dir string) (*Prelude, error) {
 				if t != "(" && t != ")" {
 					d.Syms = append(d.Syms, t)
 				}
+			}
+			if (d.Kind == "define-fun" || d.Kind == "define-fun-rec") && p.Opaque[d.Name] {
+				// opaque: queries see only an uninterpreted symbol; "reveal name(args)" in a
+				// contract equates it with the hidden definition for those arguments
+				hidden := *d
+				hidden.Name = d.Name + "!def"
+				hidden.Text = strings.Replace(d.Text, "("+d.Kind+" "+d.Name+" ", "("+d.Kind+" "+hidden.Name+" ", 1)
+				var syms []string
+				for _, sy := range d.Syms {
+					if sy == d.Name {
+						sy = hidden.Name
+					}
+					syms = append(syms, sy)
+				}
+				hidden.Syms = syms
+				p.Defs[hidden.Name] = &hidden
+				p.Order = append(p.Order, hidden.Name)
+				decl := &PDef{Name: d.Name, Kind: "declare-fun", ArgSorts: d.ArgSorts, ResSort: d.ResSort, File: d.File,
+					Text: fmt.Sprintf("(declare-fun %s (%s) %s)", d.Name, strings.Join(d.ArgSorts, " "), d.ResSort), Syms: []string{d.Name}}
+				p.Defs[d.Name] = decl
+				p.Order = append(p.Order, d.Name)
+				continue
 			}
 			if d.Kind == "assert" {
 				p.Axioms = append(p.Axioms, d)
